@@ -64,6 +64,9 @@ func (c *Conn) PeerClose() { c.mu.Lock(); c.peerEOF = true; c.mu.Unlock(); c.con
 // PeerReset makes reads fail with a connection-reset style error once drained.
 func (c *Conn) PeerReset() { c.mu.Lock(); c.peerRST = true; c.mu.Unlock(); c.cond.Broadcast() }
 
+// ConsumedNow: bytes handed to Read callers so far (safe while the conn is in use)
+func (c *Conn) ConsumedNow() int { c.mu.Lock(); defer c.mu.Unlock(); return c.Consumed }
+
 func (c *Conn) Pending() int {
 	c.mu.Lock()
 	defer c.mu.Unlock()
